@@ -55,3 +55,18 @@ Proof. exact remove_segment_ext. Qed.
 
 (* sensitivity: removing name+".psg" instead of the side file (defect D8) leaves an orphan *)
 Definition C15_pinned_refuted := remove_meta_wrong_ext_refuted.
+
+(* ---- the Go arithmetic this property rests on, AS TRANSLATED FROM THE CURRENT SOURCES by tools/gotrans
+   (gen/Funcs.v, operators in GoSem.v), equals the model's, for all values of the Go types ---- *)
+From Coq Require Import ZArith NArith Bool.
+From Pogreb Require Import Base Record Index GoSem FuncsIndexCheck FuncsRecordCheck FuncsLogCheck FuncsFSCheck.
+From Pogreb.gen Require Funcs Consts.
+Import Funcs.
+Open Scope Z_scope.
+
+Theorem C15_go_pick_too_small :
+  forall size minseg : N, (size < 2 ^ 63)%N -> (minseg < 2 ^ 32)%N ->
+  go_pick_too_small (Z.of_N size) (Z.of_N minseg) = (u32 size <? minseg)%N.
+Proof. exact pick_too_small_ok. Qed.
+Print Assumptions C15_go_pick_too_small.
+
